@@ -236,6 +236,7 @@ func (c *Ctx) resetPath(p []int) {
 		c.stepMax = c.termBudget
 	}
 	c.depthMax = 400
+	c.mapOrderMax = c.ex.spec.Params["engine.maporder"]
 	c.extra = nil
 	c.bypass = false
 	c.explicitInit = false
